@@ -18,6 +18,9 @@ pub enum FastIcaError {
     SvdDecomposition,
     #[error("tolerance should be positive but is {0}")]
     InvalidTolerance(f32),
+    /// When the fixed-point iteration breaks down and no de-mixing matrix can be returned
+    #[error("FastICA did not converge: {0}")]
+    NotConverged(String),
     #[cfg(feature = "blas")]
     #[error("Linalg BLAS error: {0}")]
     LinalgBlasError(#[from] ndarray_linalg::error::LinalgError),
